@@ -305,15 +305,15 @@ fn case_from(v: &Value) -> Option<Case> {
 }
 
 enum Sched<'a> {
-    /// all-default (used by the measuring run)
-    Default,
+    /// always the same actor (used by the measuring runs)
+    Const(u8),
     Explore(&'a mut Chooser, Vec<u8>),
     Replay(Vec<u8>, usize),
 }
 impl Sched<'_> {
     fn pick(&mut self, n: usize) -> usize {
         match self {
-            Sched::Default => 0,
+            Sched::Const(a) => (*a as usize).min(n - 1),
             Sched::Explore(ch, rec) => {
                 let c = ch.choose_free(n);
                 rec.push(c as u8);
@@ -328,7 +328,7 @@ impl Sched<'_> {
     }
     fn recorded(&self) -> Vec<u8> {
         match self {
-            Sched::Default => vec![],
+            Sched::Const(_) => vec![],
             Sched::Explore(_, rec) => rec.clone(),
             Sched::Replay(v, _) => v.clone(),
         }
@@ -810,6 +810,7 @@ fn s_demux_map_lazy_of_lazy_sink(c: &Case, w: &W, _: &mut Sched) {
     let sink = sinktools::demux_map_lazy(move |k: &u8| {
         let k = *k;
         let w3 = w2.clone();
+        *w2.borrow_mut().init_calls.entry(100 + k).or_insert(0) += 1;
         Box::pin(LazySink::<_, _, CkSink, u8>::new(move || {
             *w3.borrow_mut().init_calls.entry(k).or_insert(0) += 1;
             ScriptFuture::new(OBJ_FUT + k, &w3, Ok::<_, SinkErr>(CkSink::new(k, &w3, false)), vec![k])
@@ -1179,6 +1180,7 @@ pub fn run(rep: &mut Report) {
     let vm: VioMap = Mutex::new(BTreeMap::new());
     let per_scen: Mutex<BTreeMap<String, Stats>> = Mutex::new(BTreeMap::new());
     let notes: Mutex<BTreeMap<String, u64>> = Mutex::new(BTreeMap::new());
+    let horizon_all: Mutex<BTreeSet<String>> = Mutex::new(BTreeSet::new());
     // big shards first
     shards.sort_by_key(|s| std::cmp::Reverse((s.len, scs[s.scen].alpha)));
     let _ = par_map(shards.len(), ncpu().min(16), |si| {
@@ -1187,6 +1189,7 @@ pub fn run(rep: &mut Report) {
         let mut st = Stats::new();
         let mut measure_cache: HashMap<(Vec<u8>, Vec<bool>, usize), BTreeMap<u8, u32>> = HashMap::new();
         let mut after_end_runs = 0u64;
+        let mut horizon_exceeded: BTreeSet<String> = BTreeSet::new();
         let es = explore(Some(k), 400_000_000, |ch| {
             let mut c = Case { scen: sc.name.to_string(), ..Default::default() };
             for i in 0..sh.len {
@@ -1201,10 +1204,21 @@ pub fn run(rep: &mut Report) {
             c.param = if np > 1 { ch.choose_free(np) } else { 0 };
             let base = measure_cache
                 .entry((c.syms.clone(), c.flush.clone(), c.param))
-                .or_insert_with(|| run_case(sc, &c, Sched::Default).polls)
+                .or_insert_with(|| {
+                    // pending-free runs under both extreme interleavings (identical for one-actor scenarios)
+                    let mut m = run_case(sc, &c, Sched::Const(0)).polls;
+                    for (o, n) in run_case(sc, &c, Sched::Const(1)).polls {
+                        let e = m.entry(o).or_insert(0);
+                        *e = (*e).max(n);
+                    }
+                    m
+                })
                 .clone();
+            // One Pending makes the driver retry one top-level call; a retry polls an object at most
+            // once more for sinks, at most twice more for the send futures (poll_ready + poll_flush).
+            let hz = |n: u32| n as usize + k * if sc.has_flush { 1 } else { 2 };
             for (obj, n) in &base {
-                for idx in 0..(*n as usize + k) {
+                for idx in 0..hz(*n) {
                     if ch.choose(2) == 1 {
                         c.pend.push((*obj, idx as u8));
                     }
@@ -1214,9 +1228,9 @@ pub fn run(rep: &mut Report) {
             c.sched = o.sched.clone();
             st.eval();
             for (obj, n) in &o.polls {
-                let h = base.get(obj).copied().unwrap_or(0) as usize + k;
+                let h = hz(base.get(obj).copied().unwrap_or(0));
                 if *n as usize > h && o.faults.is_empty() {
-                    st.cap(format!("{}: {} was polled {n} times, pending script horizon {h}", sc.name, obj_name(*obj)));
+                    horizon_exceeded.insert(format!("{}: {} was polled more often than its pending-script horizon (polls in the pending-free run + {}k)", sc.name, obj_name(*obj), if sc.has_flush { 1 } else { 2 }));
                 }
             }
             if !c.syms.is_empty() && o.polls.values().any(|n| *n > 0) {
@@ -1254,6 +1268,7 @@ pub fn run(rep: &mut Report) {
                 }
             }
         });
+        horizon_all.lock().unwrap().extend(horizon_exceeded);
         if es.capped {
             st.cap(format!("C14 shard {} len={} first={} capped at {} executions", sc.name, sh.len, sh.first, es.executions));
         }
@@ -1268,6 +1283,9 @@ pub fn run(rep: &mut Report) {
         rep.section(&name, st);
     }
     let mut vst = Stats::new();
+    for h in horizon_all.into_inner().unwrap() {
+        vst.cap(h);
+    }
     flush_violations(vm, &mut vst);
     rep.section("~violations", vst);
     rep.sections.insert("observations".into(), json!(notes.into_inner().unwrap()));
